@@ -1,0 +1,51 @@
+//go:build verif
+
+package couchbase
+
+// Contracts checked by /verif (govc). Comment-only: no executable code.
+// Couchbase metadata backend and membership keys (C01, C02, C05, C14).
+
+//@ func getCheckpointID
+//@ props C14 C01 C02
+//@ panics.ambiguous[C14] contains(groupName, ".")
+//@ returns.plain[C14] !contains(groupName, ".")
+//@ ensures.key[C14] str(result) == helpers.Prefix + groupName + ":checkpoint:" + itoa(vbID)
+//@ ensures.reserved[C14] hasprefix(str(result), helpers.Prefix)
+//@ modifies nothing
+
+//@ func (*cbMetadata).saveVBucketCheckpoint$1
+//@ props C01 C02 C05 C14
+//@ requires s != nil && s.config != nil && s.client != nil && ctx != nil
+//@ let id = dret("couchbase.getCheckpointID", 0, 0)
+//@ let payload = uninterp("json.enc", uninterp("mk.iface", uninterp("tag.CheckpointDocument"), checkpointDocument))
+//@ let first = dret("couchbase.UpsertXattrs", 0, 0)
+//@ check.key[C14,C01] dcalls("couchbase.getCheckpointID") == 1 && darg("couchbase.getCheckpointID", 0, vbID) == vbID && darg("couchbase.getCheckpointID", 0, groupName) == s.config.Dcp.Group.Name
+//@ check.write_same_vb[C01,C02] dcalls("couchbase.UpsertXattrs") >= 1 && forall i int :: 0 <= i && i < dcalls("couchbase.UpsertXattrs") ==> darg("couchbase.UpsertXattrs", i, id) == id && darg("couchbase.UpsertXattrs", i, path) == helpers.Name
+//@ check.payload[C01,C02] forall i int :: 0 <= i && i < dcalls("couchbase.UpsertXattrs") ==> darg("couchbase.UpsertXattrs", i, value) == darg("couchbase.UpsertXattrs", 0, value)
+//@ check.ok[C05] first == nil ==> result == nil && dcalls("couchbase.UpsertXattrs") == 1 && dcalls("couchbase.CreateDocument") == 0
+//@ check.error_reported[C05] result == nil ==> dret("couchbase.UpsertXattrs", dcalls("couchbase.UpsertXattrs") - 1, 0) == nil
+//@ check.create_same_key[C14] dcalls("couchbase.CreateDocument") <= 1 && (dcalls("couchbase.CreateDocument") == 1 ==> darg("couchbase.CreateDocument", 0, id) == id)
+//@ modifies calls("couchbase.getCheckpointID"), calls("couchbase.UpsertXattrs"), calls("couchbase.CreateDocument"), calls("gocbcore.(*Agent).MutateIn"), calls("gocbcore.(*Agent).Set"), calls(couchbase.AsyncOp.Wait), calls(gocbcore.PendingOp.Cancel), calls(select.case), calls(couchbase.Client.GetMetaAgent), chan(uninterp("ctx.done", ctx))
+
+//@ func (*cbMetadata).saveVBucketCheckpoint
+//@ props C01 C05
+//@ requires s != nil
+//@ ensures.closure[C01,C05] isclosure(result, "couchbase.(*cbMetadata).saveVBucketCheckpoint$1") && captured(result, "couchbase.(*cbMetadata).saveVBucketCheckpoint$1", "s") == s && captured(result, "couchbase.(*cbMetadata).saveVBucketCheckpoint$1", "vbID") == vbID && captured(result, "couchbase.(*cbMetadata).saveVBucketCheckpoint$1", "checkpointDocument") == checkpointDocument && captured(result, "couchbase.(*cbMetadata).saveVBucketCheckpoint$1", "ctx") == ctx
+//@ modifies nothing
+
+//@ func (*cbMetadata).Save
+//@ props C01 C02 C05
+//@ requires s != nil && s.config != nil && state != nil
+//@ let g0 = old(ncalls("errgroup.(*Group).Go"))
+//@ let s0 = old(ncalls("couchbase.(*cbMetadata).saveVBucketCheckpoint"))
+//@ loop 1
+//@   invariant.paired ncalls("errgroup.(*Group).Go") - g0 == ncalls("couchbase.(*cbMetadata).saveVBucketCheckpoint") - s0 && ncalls("couchbase.(*cbMetadata).saveVBucketCheckpoint") >= s0
+//@   invariant.submitted forall k int :: 0 <= k && k < ncalls("couchbase.(*cbMetadata).saveVBucketCheckpoint") - s0 ==> argat("errgroup.(*Group).Go", g0 + k, f) == retat("couchbase.(*cbMetadata).saveVBucketCheckpoint", s0 + k, 0)
+//@   invariant.only_dirty forall i int :: s0 <= i && i < ncalls("couchbase.(*cbMetadata).saveVBucketCheckpoint") ==> visited[argat("couchbase.(*cbMetadata).saveVBucketCheckpoint", i, vbID)] && has(dirtyOffsets, argat("couchbase.(*cbMetadata).saveVBucketCheckpoint", i, vbID)) && dirtyOffsets[argat("couchbase.(*cbMetadata).saveVBucketCheckpoint", i, vbID)] && argat("couchbase.(*cbMetadata).saveVBucketCheckpoint", i, checkpointDocument) == state[argat("couchbase.(*cbMetadata).saveVBucketCheckpoint", i, vbID)] && argat("couchbase.(*cbMetadata).saveVBucketCheckpoint", i, s) == s
+//@   invariant.every_dirty forall vb uint16 :: visited[vb] && has(dirtyOffsets, vb) && dirtyOffsets[vb] ==> s0 <= lastcall("couchbase.(*cbMetadata).saveVBucketCheckpoint", vbID, vb) && lastcall("couchbase.(*cbMetadata).saveVBucketCheckpoint", vbID, vb) < ncalls("couchbase.(*cbMetadata).saveVBucketCheckpoint") && argat("couchbase.(*cbMetadata).saveVBucketCheckpoint", lastcall("couchbase.(*cbMetadata).saveVBucketCheckpoint", vbID, vb), vbID) == vb
+//@   modifies calls("errgroup.(*Group).Go"), calls("couchbase.(*cbMetadata).saveVBucketCheckpoint")
+//@ ensures.paired[C05] ncalls("errgroup.(*Group).Go") - g0 == ncalls("couchbase.(*cbMetadata).saveVBucketCheckpoint") - s0 && forall k int :: 0 <= k && k < ncalls("couchbase.(*cbMetadata).saveVBucketCheckpoint") - s0 ==> argat("errgroup.(*Group).Go", g0 + k, f) == retat("couchbase.(*cbMetadata).saveVBucketCheckpoint", s0 + k, 0)
+//@ ensures.only_dirty[C05,C01] forall i int :: s0 <= i && i < ncalls("couchbase.(*cbMetadata).saveVBucketCheckpoint") ==> has(state, argat("couchbase.(*cbMetadata).saveVBucketCheckpoint", i, vbID)) && has(dirtyOffsets, argat("couchbase.(*cbMetadata).saveVBucketCheckpoint", i, vbID)) && dirtyOffsets[argat("couchbase.(*cbMetadata).saveVBucketCheckpoint", i, vbID)] && argat("couchbase.(*cbMetadata).saveVBucketCheckpoint", i, checkpointDocument) == state[argat("couchbase.(*cbMetadata).saveVBucketCheckpoint", i, vbID)] && argat("couchbase.(*cbMetadata).saveVBucketCheckpoint", i, s) == s
+//@ ensures.every_dirty[C05] forall vb uint16 :: has(state, vb) && has(dirtyOffsets, vb) && dirtyOffsets[vb] ==> s0 <= lastcall("couchbase.(*cbMetadata).saveVBucketCheckpoint", vbID, vb) && lastcall("couchbase.(*cbMetadata).saveVBucketCheckpoint", vbID, vb) < ncalls("couchbase.(*cbMetadata).saveVBucketCheckpoint") && argat("couchbase.(*cbMetadata).saveVBucketCheckpoint", lastcall("couchbase.(*cbMetadata).saveVBucketCheckpoint", vbID, vb), vbID) == vb
+//@ ensures.first_error[C05] result == ret("errgroup.(*Group).Wait", 0)
+//@ modifies calls("errgroup.(*Group).Go"), calls("errgroup.(*Group).Wait"), calls("couchbase.(*cbMetadata).saveVBucketCheckpoint"), calls(errgroup.WithContext)
